@@ -82,6 +82,31 @@ def opCmd (args : List String) : String :=
         s!"{kindName o.kind}:{o.par}:{match o.tag with | none => "all" | some t => toString t}")
       s!"{if rt then 1 else 0} D[{txt}]"
     | none => "parse-error"
+  | "media" :: rest =>
+    -- inf circ radCount radRadius(-1 = not given, coded +1) n (eps sigma height coord+1|0)…
+    -- → "error" or "ok" + the media the model builds + " | " + the options the model writes for them + round-trip flag
+    let pOpt : P MedOpt := do
+      let e ← pNat; let s ← pNat; let h ← pNat; let c ← pNat
+      pure ⟨e, s, h, if c == 0 then none else some (c - 1)⟩
+    let prog : P (Nat × MediaOpts) := do
+      let inf ← pNat; let circ ← pNat; let rc ← pNat; let rr ← pNat
+      let n ← pNat; let os ← pRepeat pOpt n
+      pure (inf, ⟨os, circ == 1, rc, if rr == 0 then none else some (rr - 1)⟩)
+    match prog.run rest with
+    | some ((inf, g), _) =>
+      match readMedia inf g with
+      | .error _ => "error"
+      | .ok ms =>
+        let w := writeMedia ms
+        let rt := match readMedia inf w with
+          | .ok ms' => decide (ms' = normBoundary ms)
+          | .error _ => false
+        let mTxt := " ".intercalate (ms.map fun m =>
+          s!"{m.eps},{m.sigma},{m.height},{m.coord},{m.nradials},{m.radius},{if m.circular then 1 else 0}")
+        let oTxt := " ".intercalate (w.media.map fun o =>
+          s!"{o.eps},{o.sigma},{o.height},{match o.coord with | none => "-" | some c => toString c}")
+        s!"ok {ms.length} {mTxt} | {if w.circular then 1 else 0} {w.radCount} {match w.radRadius with | none => "-" | some r => toString r} {oTxt} | {if rt then 1 else 0}"
+    | none => "parse-error"
   | _ => "bad-op"
 
 end Driver
